@@ -287,13 +287,13 @@ pub fn run(ctx: &Ctx) {
         ctx.enumerated("grid-word-twins", "pair", total, true, &note, move |i| grid_make(i, &gaps, &words), check_pair);
     }
     let max_len = t.pick(300usize, 3000);
-    let n = t.pick(30_000u64, 1_500_000);
+    let n = t.pick(200_000u64, 2_000_000);
     ctx.generated("twins-and-neighbours", "pair", n, "x vs x*10^g (+-1), g in 1..60 and multiples of 17 up to 1020, all digit shapes", move || twin_strategy(max_len), check_pair);
     ctx.generated("same-magnitude", "pair", n, "independent digits, equal adjusted exponents, long common prefixes", move || same_magnitude_strategy(max_len), check_pair);
     ctx.generated("free-pairs", "pair", n / 2, "independent random decimals", move || free_strategy(max_len), check_pair);
     ctx.generated("extreme-scales", "pair", n / 2, "scales at i64::MIN/MAX, +-2^62, random i64: differences beyond 2^63", extreme_scale_strategy, check_pair);
-    ctx.generated("straddle-u64-u128", "pair", t.pick(20_000, 200_000), "a = 2^64|2^128 + da at scale g vs b = floor(limit/10^g) + db", straddle_strategy, check_pair);
-    ctx.generated("sort-vectors", "sort", t.pick(10_000, 300_000), "vectors of 2..12 decimals with twins, negations and neighbours; sort/max/min", move || sort_strategy(max_len.min(200)), check_sort);
+    ctx.generated("straddle-u64-u128", "pair", t.pick(100_000, 500_000), "a = 2^64|2^128 + da at scale g vs b = floor(limit/10^g) + db", straddle_strategy, check_pair);
+    ctx.generated("sort-vectors", "sort", t.pick(50_000, 500_000), "vectors of 2..12 decimals with twins, negations and neighbours; sort/max/min", move || sort_strategy(max_len.min(200)), check_sort);
     let _ = SplitMix(0);
     let _ = DigSpec { shape: 0, len: 0, head: vec![], seed: 0, aux: 0 };
 }
